@@ -109,7 +109,7 @@ impl OsuGradualPerformance {
     pub fn nth(&mut self, state: OsuScoreState, n: usize) -> Option<OsuPerformanceAttributes> {
         let performance = self
             .difficulty
-            .nth(n)?
+            .nth_clamped(n)?
             .performance()
             .lazer(self.lazer)
             .state(state)
